@@ -73,13 +73,21 @@ def verdicts(key, prefix, uni, hash_too):
     except Exception as e:
         out.append(("PooledClient.check_key", "other:" + type(e).__name__, None))
     if hash_too:
-        for cls, name, args in ((Client, "Client.get", ("/s",)), (PooledClient, "PooledClient.get", ("/s",)),
-                                (HashClient, "HashClient.get", (["/s"],))):
+        for cls, name, args, kw in (
+                (Client, "Client.get", ("/s",), {}), (PooledClient, "PooledClient.get", ("/s",), {}),
+                (HashClient, "HashClient.get", (["/s"],), {}),
+                (Client, "Client(ignore_exc).get", ("/s",), {"ignore_exc": True}),
+                (PooledClient, "PooledClient(ignore_exc).get", ("/s",), {"ignore_exc": True}),
+                (HashClient, "HashClient(ignore_exc).get", (["/s"],), {"ignore_exc": True}),
+                (HashClient, "HashClient(pooled,ignore_exc).get", (["/s"],), {"ignore_exc": True, "use_pooling": True})):
             mod = RecModule()
-            h = cls(*args, key_prefix=prefix, allow_unicode_keys=uni, socket_module=mod)
+            h = cls(*args, key_prefix=prefix, allow_unicode_keys=uni, socket_module=mod, **kw)
             try:
-                h.get(key)
+                r = h.get(key, "MISS")
                 sent = b"".join(mod.log)
+                if not sent:
+                    out.append((name, "silently-ignored", None))
+                    continue
                 wire = sent[4:-2] if sent.startswith(b"get ") and sent.endswith(b"\r\n") else sent
                 out.append((name, "ok", wire))
             except MemcacheIllegalInputError:
@@ -101,6 +109,11 @@ def judge(chk, key, prefix, uni, hash_too):
         bad = None
         if got.startswith("other"):
             bad = ("wrong-exception", f"raised {got[6:]} instead of accepting or MemcacheIllegalInputError")
+        elif got == "silently-ignored":
+            if verdict == "illegal":
+                bad = ("illegal-key-not-reported", "neither sent anything nor raised MemcacheIllegalInputError (returned the default)")
+            else:
+                bad = ("legal-key-not-sent", "returned the default without sending the key")
         elif got == "illegal-after-sending":
             bad = ("rejected-after-sending", "rejected the key only after bytes had been written")
         elif verdict == "legal" and got != "ok":
